@@ -165,8 +165,7 @@ def worker(job):
                             ends.add(acc)
                         if fkey == 'interim' and base[j][1] in (100, 103):
                             key = 'interim-1xx-returned-as-the-response'
-                        if fkey == 'overrun' and k == j + 1 and body_end in ends and \
-                                summ[:k] == base[:k]:
+                        if fkey == 'overrun' and k > j and body_end in ends and summ[:j + 1] == base[:j + 1]:
                             # mechanism: the surplus arrives in a later read than the last body byte, so the
                             # overrun is never seen; the bytes stay buffered and are parsed as the next response
                             key = POISON_KEY
